@@ -17,7 +17,7 @@ from .engine_p import Session, first_difference
 from .oracles_g import _deep_equal
 
 N_RUNS = {
-    "C07": (1700, 17000), "C08": (1500, 15000), "C09": (1100, 9000), "C12": (2400, 24000), "C18": (1500, 12000),
+    "C07": (3400, 30000), "C08": (2500, 25000), "C09": (1700, 14000), "C12": (6000, 50000), "C18": (3000, 25000),
 }
 SEEDS = [0, 1, 42, 2 ** 31 - 1, 123456789, 2 ** 32 - 1, 7]
 
@@ -89,7 +89,7 @@ def make_desc(job):
         fam = r.choice(["cont_multi", "cont_multi", "cont_single", "cont_mixed", "multi_objective", "discrete",
                         "binary", "mixed", "permutation"])
         d["task"] = scenario.gen_task(r, fam, minmax="max")
-        d["config"], d["perturbed"] = scenario.gen_config(r, opt, engine_g.make_config, cycles=cyc, perturb_p=0.2,
+        d["config"], d["perturbed"] = scenario.gen_config(r, opt, engine_g.make_config, cycles=cyc, perturb_p=0.5,
                                                           stop_opts=False)
         d["faults"] = scenario.gen_faults(r, "serial", 0, p_none=0.6, kinds=scenario.STREAM_FAULTS)
     elif pid == "C18":
